@@ -34,6 +34,23 @@ impl Action {
             Action::JsonFlip(n) => format!("jsonflip{n}"),
         }
     }
+    pub fn parse(name: &str) -> Option<Action> {
+        Some(match name {
+            "delete" => Action::Delete,
+            "truncate0" => Action::Truncate0,
+            "truncate-half" => Action::TruncateHalf,
+            "garbage" => Action::Garbage,
+            _ => {
+                if let Some(n) = name.strip_prefix("bitflip") {
+                    Action::BitFlip(n.parse().ok()?)
+                } else if let Some(n) = name.strip_prefix("jsonflip") {
+                    Action::JsonFlip(n.parse().ok()?)
+                } else {
+                    return None;
+                }
+            }
+        })
+    }
     pub fn class(&self) -> &'static str {
         match self {
             Action::Delete => "delete",
